@@ -3,9 +3,9 @@
 set -e
 cd "$(dirname "$0")/.."
 mkdir -p build coq/gen
-python3 tools/cxx2gallina.py coq/gen >/dev/null || true
+python3 -c "import sys; sys.path.insert(0, 'tools'); import xvlib; print(xvlib.regenerate_gen()[0])" >/dev/null || true
 cd coq
-[ -f Makefile ] || coq_makefile -f _CoqProject $(find . -name '*.v' | sort) -o Makefile >/dev/null
+coq_makefile -f _CoqProject $(find . -name '*.v' | sed 's|^\./||' | sort) -o Makefile >/dev/null; rm -f .files.stamp
 timeout 3000 make -k -j16 >../build/coq-make.log 2>&1 || true
 cd ..
 python3 - <<'PY'
